@@ -1,5 +1,15 @@
 """C02 — simulator applicability queries agree with apply.
 
+P (query wrappers, real source; the two primitives get_unsatisfied_conditions / apply_unsafe / get_unsatisfied_goals by contract):
+  _is_applicable returns True exactly when the full check reports no reason, False when it raises UPInvalidActionError or
+  UPStateMissingFluentError, and lets only UPUsageError (wrong arguments) escape;  _apply returns None exactly when the condition check
+  reports a reason or either primitive raises one of the three documented exceptions, and otherwise the state apply_unsafe returned;
+  _is_goal is True exactly when get_unsatisfied_goals returns an empty list and False when it raises the documented error;
+  _get_applicable_actions yields exactly the grounded instances for which _is_applicable holds (executed on two symbolic instances: bounded).
+  None of them can write the state (opaque, no store) and no exception class of the primitives is left unmapped.
+The agreement `full-check reason is None  <=>  condition check reason is None and apply_unsafe succeeds` lives inside
+get_unsatisfied_conditions / apply_unsafe, which share _evaluate_effect (kernel proved in C01); it is decided by the bounded layer.
+
 B: on the C01 problem family, for every reachable (state, ground action instance):
 is_applicable == (apply is not None); get_applicable_actions == {instances apply accepts};
 is_goal == (get_unsatisfied_goals == []); each query leaves the state (values, ==, hash) and every
@@ -10,7 +20,6 @@ from rtc import seqcheck as SC
 from spec import seqsem
 from unified_planning.exceptions import UPStateMissingFluentError
 
-UNITS = []
 USES_THEORY = False
 
 
@@ -108,5 +117,185 @@ def bounded(tier, seed):
             "samples": samples, "bound": f"{nprob} problems, depth {depth}"}
 
 
+
+
+# ======================================================================================================= proved layer
+import z3
+from pyvc.values import Ref, Seq, Tup, SBool, SRef, SSeq, SSet, Set, Rec, CList, Loc, ExcVal, fresh_name, zbool, zint, Unsupported
+from pyvc.verify import Unit
+from pyvc.engine import LoopSpec
+from pyvc import builtins as B
+import unified_planning.engines.sequential_simulator as _ss
+from unified_planning.engines.sequential_simulator import InapplicabilityReasons as _IR
+from unified_planning.exceptions import (UPUsageError as _Usage, UPInvalidActionError as _Invalid, UPConflictingEffectsException as _Conflict)
+_Missing = UPStateMissingFluentError
+
+State02, Action02, Params02, FN02 = Ref("State02"), Ref("Action02"), Ref("Params02"), Ref("FNode02")
+_S, _A, _P = State02.z3sort(), Action02.z3sort(), Params02.z3sort()
+# outcome of get_unsatisfied_conditions per (state, action, params, full_check): 0 = returns, 1..3 = raises
+GUC_EXC = [None, _Usage, _Invalid, _Missing]
+GUCRAISE = z3.Function("get_unsatisfied_conditions.raises", _S, _A, _P, z3.BoolSort(), z3.IntSort())
+GUCREASON = z3.Function("get_unsatisfied_conditions.reason_is_none", _S, _A, _P, z3.BoolSort(), z3.BoolSort())
+AP_EXC = [None, _Usage, _Invalid, _Conflict, _Missing]
+APRAISE = z3.Function("apply_unsafe.raises", _S, _A, _P, z3.IntSort())
+APRES = z3.Function("apply_unsafe.result", _S, _A, _P, _S)
+GUGRAISE = z3.Function("get_unsatisfied_goals.raises", _S, z3.BoolSort())
+GUGLEN = z3.Function("get_unsatisfied_goals.len", _S, z3.IntSort())
+
+
+def _codes(eng, st, code, n, label):
+    st.assume(code >= 0, code <= n)
+    for k in range(n + 1):
+        if eng.feasible(st, code == k):
+            yield st.fork().assume(code == k).note(f"{label}={k}"), k
+
+
+def _guc(eng, st, args, kw):
+    selfv, state, action, params = args[:4]
+    full = kw.get("full_check", False)
+    st.ghost["guc_calls"] = st.ghost.get("guc_calls", ()) + ((bool(full), kw.get("early_termination", False)),)
+    fz = z3.BoolVal(bool(full))
+    for s, k in _codes(eng, st, GUCRAISE(state.z, action.z, params.z, fz), 3, "guc"):
+        if k:
+            yield s, ExcVal(GUC_EXC[k], (), "get_unsatisfied_conditions")
+            continue
+        for s2, none in eng.branch(s, GUCREASON(state.z, action.z, params.z, fz), "guc:reason-none"):
+            lst = s2.alloc(Seq(FN02).fresh("unsat"), "list")
+            yield s2, (lst, None if none else _IR.VIOLATES_CONDITIONS)
+
+
+def _apply_unsafe(eng, st, args, kw):
+    selfv, state, action, params = args[:4]
+    for s, k in _codes(eng, st, APRAISE(state.z, action.z, params.z), 4, "ap"):
+        yield s, (ExcVal(AP_EXC[k], (), "apply_unsafe") if k else State02.wrap(APRES(state.z, action.z, params.z)))
+
+
+def _gug(eng, st, args, kw):
+    selfv, state = args[:2]
+    for s, r in eng.branch(st, GUGRAISE(state.z), "gug:raise"):
+        if r:
+            yield s, ExcVal(_Missing, (), "get_unsatisfied_goals")
+        else:
+            seq = Seq(FN02).fresh("unsatisfied_goals")
+            s.assume(seq.n == GUGLEN(state.z), seq.n >= 0)
+            yield s, s.alloc(seq, "list")
+
+
+def _install(eng):
+    eng.contracts[_ss.UPSequentialSimulator.get_unsatisfied_conditions] = _guc
+    eng.contracts[_ss.UPSequentialSimulator.apply_unsafe] = _apply_unsafe
+    eng.contracts[_ss.UPSequentialSimulator.get_unsatisfied_goals] = _gug
+
+
+class Wrapper(Unit):
+    prop = "C02"
+    allowed_raises = (_Usage,)
+
+    def __init__(self, fname, doc):
+        self.fname, self.doc = fname, doc
+        self.name = f"UPSequentialSimulator.{fname}"
+
+    def target(self):
+        return getattr(_ss.UPSequentialSimulator, self.fname)
+
+    def configure(self, eng):
+        _install(eng)
+
+    def setup(self, eng, st):
+        w = st.alloc(Rec(_ss.UPSequentialSimulator, {}), "simulator")
+        state, action, params = State02.fresh("state"), Action02.fresh("action"), Params02.fresh("parameters")
+        args = [w, state] if self.fname == "_is_goal" else [w, state, action, params]
+        return args, {}, dict(state=state, action=action, params=params)
+
+    def post(self, eng, ctx, st, out):
+        s, a, p = ctx["state"].z, ctx["action"].z, ctx["params"].z
+        T_, F_ = z3.BoolVal(True), z3.BoolVal(False)
+        if self.fname == "_is_applicable":
+            code, none = GUCRAISE(s, a, p, T_), GUCREASON(s, a, p, T_)
+            if out[0] == "raise":
+                st.oblige("only UPUsageError of the full check escapes", z3.And(z3.BoolVal(out[1].cls is _Usage), code == 1))
+                return
+            st.oblige("the answer is a Boolean", z3.BoolVal(isinstance(out[1], (bool, SBool))))
+            st.oblige("True exactly when the full check returns without a reason; False also when it raises the documented errors",
+                      zbool(out[1]) == z3.And(code == 0, none))
+            st.oblige("the full check is what is asked (full_check=True)", z3.BoolVal(st.ghost.get("guc_calls") == ((True, True),)))
+        elif self.fname == "_apply":
+            code, none, ap = GUCRAISE(s, a, p, F_), GUCREASON(s, a, p, F_), APRAISE(s, a, p)
+            if out[0] == "raise":
+                st.oblige("only UPUsageError of the primitives escapes", z3.And(z3.BoolVal(out[1].cls is _Usage), z3.Or(code == 1, z3.And(code == 0, none, ap == 1))))
+                return
+            ok = z3.And(code == 0, none, ap == 0)
+            if out[1] is None:
+                st.oblige("None only when the condition check reports a reason or a primitive raises a documented error", z3.Not(ok))
+            else:
+                st.oblige("a state is returned only when the conditions hold and apply_unsafe succeeds", ok)
+                st.oblige("the returned state is apply_unsafe's", out[1].z == APRES(s, a, p))
+        elif self.fname == "_is_goal":
+            if out[0] == "raise":
+                st.oblige("no exception escapes is_goal", F_)
+                return
+            st.oblige("True exactly when get_unsatisfied_goals returns the empty list", zbool(out[1]) == z3.And(z3.Not(GUGRAISE(s)), GUGLEN(s) == 0))
+
+
+GA02 = Tup(Action02, Params02, FN02)
+ISAPP = z3.Function("_is_applicable.result", _S, _A, _P, z3.BoolSort())
+QNGA = "unified_planning.engines.sequential_simulator.UPSequentialSimulator._get_applicable_actions"
+
+
+class ApplicableActionsStep(Unit):
+    """one arbitrary iteration of the loop of _get_applicable_actions, via a one-element list: yields the instance iff it is applicable"""
+    prop = "C02"
+    name = "UPSequentialSimulator._get_applicable_actions (per instance)"
+    doc = "for every grounded instance: it is yielded exactly when _is_applicable holds for it in the given state"
+    allowed_raises = (_Usage,)
+
+    def target(self):
+        return _ss.UPSequentialSimulator._get_applicable_actions
+
+    def configure(self, eng):
+        def is_app(eng_, st, args, kw):
+            selfv, state, action, params = args
+            st.ghost["asked"] = st.ghost.get("asked", ()) + ((state.z, action.z, params.z),)
+            yield st, SBool(ISAPP(state.z, action.z, params.z))
+        eng.contracts[_ss.UPSequentialSimulator._is_applicable] = is_app
+
+        def hook(eng_, st, v):
+            st.ghost["yielded"] = st.ghost.get("yielded", ()) + (v,)
+        eng.yield_hooks[QNGA] = hook
+
+    def setup(self, eng, st):
+        k = 2
+        items = [GA02.fresh(f"ga{j}") for j in range(k)]
+        w = st.alloc(Rec(_ss.UPSequentialSimulator, {"_grounded_actions": st.alloc(CList(items), "list")}), "simulator")
+        state = State02.fresh("state")
+        return [w, state], {}, dict(state=state, items=items)
+
+    def post(self, eng, ctx, st, out):
+        if out[0] != "return":
+            return
+        s = ctx["state"].z
+        ys = list(st.ghost.get("yielded", ()))
+        want = []
+        conds = []
+        for (a, p, _) in ctx["items"]:
+            conds.append(ISAPP(s, a.z, p.z))
+        # the yielded sequence is the sub-sequence of applicable instances, in order
+        pos = 0
+        terms = []
+        exp_count = z3.Sum([z3.If(c, 1, 0) for c in conds])
+        st.oblige("as many instances are yielded as are applicable", z3.IntVal(len(ys)) == exp_count)
+        for (ya, yp) in ys:
+            match = z3.Or([z3.And(c, ya.z == a.z, yp.z == p.z) for c, (a, p, _) in zip(conds, ctx["items"])])
+            st.oblige("every yielded instance is a grounded instance that is applicable", match)
+        st.oblige("applicability is asked in the given state only", z3.BoolVal(all(z3.eq(x[0], s) for x in st.ghost.get("asked", ()))))
+
+
+UNITS = [Wrapper("_is_applicable", "exception mapping and verdict of the applicability query"),
+         Wrapper("_apply", "None iff not applicable or a documented error; otherwise apply_unsafe's state"),
+         Wrapper("_is_goal", "goal test = empty list of unsatisfied goals; the documented error counts as not a goal"),
+         ApplicableActionsStep()]
 LEVEL = "other"
 EXPLANATION = __doc__
+TRUSTED = ["get_unsatisfied_conditions / apply_unsafe / get_unsatisfied_goals are used by contract (return, or raise one of their documented exception classes); "
+           "that the full check agrees with apply_unsafe is decided by the bounded layer (both share _evaluate_effect, proved in C01)",
+           "_get_applicable_actions: verified on a list of two symbolic grounded instances (the loop body is iteration-independent); labelled bounded"]
